@@ -136,7 +136,15 @@ static event_t *new_event(rdsparser_t *r, int kind, long arg, void *ud)
             if (!inst[i].reg[kind]) snprintf(xmsg, sizeof xmsg, "X callback %d invoked although it is not registered", kind);
             else if (inst[i].ud != (unsigned long)(uintptr_t)ud) snprintf(xmsg, sizeof xmsg, "X callback %d got user data %lu, most recently set: %lu", kind, (unsigned long)(uintptr_t)ud, inst[i].ud);
         }
-    if (reent) {
+    if (reent >= 1000) {
+        /* targeted form `ri 1000+100*j+4*k+bits`: only callback j acts — bit 0: it unregisters callback k, bit 1: it changes the user data */
+        int j = (reent - 1000) / 100, k = ((reent - 1000) % 100) / 4, bits = reent & 3;
+        if (kind == j) {
+            reent_count++;
+            if (bits & 1) do_register(r, k % 12, 0);
+            if (bits & 2) do_set_ud(r, 0x7000 + 16 * j + k);
+        }
+    } else if (reent) {
         reent_count++;
         if (reent & 1) do_register(r, (int)((kind + 1 + reent_count % 7) % 12), (int)((reent_count / 3) & 1));
         if (reent & 2) do_set_ud(r, 0x5000 + reent_count % 97);
